@@ -19,7 +19,7 @@ CONFIG = {
     "C01": dict(algos=None, families=None, n=(250, 4000)),
     "C02": dict(algos=["ID"], families=["star", "mesh", "meshx", "tree", "custom"], n=(200, 3000), perms=True),
     "C03": dict(algos=["SRC"], families=["star", "mesh", "meshx", "tree", "custom"], n=(200, 3000), perms=True),
-    "C04": dict(algos=["XY"], families=["mesh"], n=(200, 3000), xy_sweep=True),
+    "C04": dict(algos=["XY"], families=["mesh"], n=(200, 3000), xy_sweep=True, skip_xy_offset=True),
     "C05": dict(algos=None, families=None, n=(250, 4000), perms=True),
     "C06": dict(algos=None, families=None, n=(250, 4000)),
     "C07": dict(algos=None, families=None, n=(250, 4000), perms=True),
@@ -167,7 +167,20 @@ def run_case(driver, cfg, props, model=True):
                        "model": model, "slice": SLICE.get(props[0], "all") if props else "all"})
     if "error" in res:
         return {"status": "extractor-error", "err": res["error"]}
-    return {"status": "ok", "findings": res["findings"], "model": res.get("model")}
+    findings = res["findings"]
+    if not r.rerender_same:
+        # a second rendering of the same compiled network differs: the property must hold for that text too
+        try:
+            p2, _ = svtok.tokenize(r.pkg2)
+            t2, _ = svtok.tokenize(r.top2)
+            res2 = driver.call({"cmd": "check", "desc": cfg, "pkg": p2, "top": t2, "props": props, "model": False})
+            for k, v in (res2.get("findings") or {}).items():
+                if isinstance(v, list):
+                    findings[k] = findings.get(k, []) + [dict(f, site=f["site"] + " (second rendering)") for f in v]
+        except svtok.TokError:
+            pass
+    return {"status": "ok", "findings": findings, "model": res.get("model"), "holds": res.get("holds", {}),
+            "rerender_same": r.rerender_same}
 
 
 # --------------------------------------------------------------------------- shrinking
@@ -246,6 +259,9 @@ class NetRunner:
 
         def handle(name, meta, cfg):
             nonlocal nontriv, evaluations, model_cmp
+            if CONFIG[pid].get("skip_xy_offset") and any("xy_id_offset" in e for e in cfg["endpoints"]):
+                stats["outside-quantifier:xy_id_offset"] += 1
+                return
             h = cfg_hash(cfg)
             evaluations += 1
             res = run_case(drv, cfg, [pid])
